@@ -759,6 +759,275 @@ fn check_sem_case(ctx: &mut Ctx, w: &World, g: &Gen, q: &Q, text: &str) {
     }
 }
 
+/// tokens of a random item of a list: a well-formed operand, or (the kinds of
+/// `C16_print_parse_boosted`) a boost on an operand that ends with a closing bracket
+fn lean_item_tokens(rng: &mut Rng, depth: u32, out: &mut Vec<String>) {
+    if rng.chance(1, 6) {
+        for _ in 0..12 {
+            let mut tmp: Vec<String> = vec![];
+            lean_opd_tokens(rng, depth, &mut tmp);
+            if matches!(tmp[0].as_str(), "r" | "fr" | "s" | "fs" | "g" | "fg" | "w" | "fw" | "pe" | "fpe") {
+                out.push("b".into());
+                out.push(rng.pick(&["2", "1", "0", "10", "007", "3"]).to_string());
+                out.push(rng.pick(&["-", "-", "5", "0", "25", "50"]).to_string());
+                out.extend(tmp);
+                return;
+            }
+        }
+    }
+    lean_opd_tokens(rng, depth, out);
+}
+
+/// tokens of a random well-formed operand (`WFOpd`) for the Lean printer
+fn lean_opd_tokens(rng: &mut Rng, depth: u32, out: &mut Vec<String>) {
+    const VOC: &[&str] = &["a", "b", "abc", "x1", "ANDROID", "ORx", "NOTE", "INDIA", "IN2", "AN", "O", "NO", "42", "Zed", "andor"];
+    const PHR: &[&str] = &["a b", "x", "", "it's", "a  b:c", "AND", "(x) +y", " b OR c ", "caf\u{e9} x", "a*", "t~2", "[a TO b]", "IN [a]"];
+    const BND: &[&str] = &["a", "b", "1", "42", "TO", "AND", "zed", "2024", "x1"];
+    if rng.chance(1, 7) {
+        if rng.chance(1, 2) {
+            out.push("r".into());
+        } else {
+            out.push("fr".into());
+            out.push(crate::model::hex(rng.pick(&["title", "body", "t", "n"]).as_bytes()));
+        }
+        out.push(rng.below(2).to_string());
+        out.push(rng.below(2).to_string());
+        out.push(crate::model::hex(rng.pick(BND).as_bytes()));
+        out.push(crate::model::hex(rng.pick(BND).as_bytes()));
+        return;
+    }
+    if rng.chance(1, 8) {
+        if rng.chance(1, 2) {
+            out.push("s".into());
+        } else {
+            out.push("fs".into());
+            out.push(crate::model::hex(rng.pick(&["title", "body", "t", "tag"]).as_bytes()));
+        }
+        out.push(rng.below(3).to_string());
+        out.push(rng.below(3).to_string());
+        out.push(crate::model::hex(rng.pick(VOC).as_bytes()));
+        let n = rng.usize_below(4);
+        out.push(n.to_string());
+        for _ in 0..n {
+            out.push(rng.below(3).to_string());
+            out.push(crate::model::hex(rng.pick(VOC).as_bytes()));
+        }
+        return;
+    }
+    const ESC: &[&str] = &["say \"hi\"", "a\\b", "\\", "\"", "c:\\dir\\", "tab\there", "x\\\"y", "\"\"", "a b", "", "\\\\ \"", "caf\u{e9} \"x\""];
+    if rng.chance(1, 7) {
+        if rng.chance(1, 2) {
+            out.push("pe".into());
+        } else {
+            out.push("fpe".into());
+            out.push(crate::model::hex(rng.pick(&["title", "body", "t", "stop"]).as_bytes()));
+        }
+        out.push(crate::model::hex(rng.pick(ESC).as_bytes()));
+        out.push(rng.pick(&["-", "-", "-", "*", "s1", "s30"]).to_string());
+        return;
+    }
+    if rng.chance(1, 8) {
+        match rng.below(4) {
+            0 => out.push("a".into()),
+            1 => {
+                out.push("x".into());
+                out.push(crate::model::hex(rng.pick(&["title", "body", "t", "n"]).as_bytes()));
+            }
+            2 => {
+                out.push("el".into());
+                out.push(rng.below(5).to_string());
+                out.push(crate::model::hex(rng.pick(BND).as_bytes()));
+            }
+            _ => {
+                out.push("fel".into());
+                out.push(crate::model::hex(rng.pick(&["title", "body", "t", "n"]).as_bytes()));
+                out.push(rng.below(5).to_string());
+                out.push(crate::model::hex(rng.pick(BND).as_bytes()));
+            }
+        }
+        return;
+    }
+    const SFX: &[&str] = &["*", "s0", "s1", "s2", "s10", "s007", "s4294967295", "-"];
+    if rng.chance(1, 6) {
+        if rng.chance(1, 2) {
+            out.push("ps".into());
+        } else {
+            out.push("fps".into());
+            out.push(crate::model::hex(rng.pick(&["title", "body", "t", "stop"]).as_bytes()));
+        }
+        out.push(crate::model::hex(rng.pick(PHR).as_bytes()));
+        out.push(rng.pick(SFX).to_string());
+        return;
+    }
+    const FLD: &[&str] = &["title", "body", "t", "x1", "INx", "NOTE", "stop", "ANDy", "O"];
+    if rng.chance(1, 5) {
+        let f = crate::model::hex(rng.pick(FLD).as_bytes());
+        if rng.chance(1, 2) {
+            out.push("fw".into());
+            out.push(f);
+            out.push(crate::model::hex(rng.pick(VOC).as_bytes()));
+        } else {
+            out.push("fp".into());
+            out.push(f);
+            out.push(crate::model::hex(rng.pick(PHR).as_bytes()));
+        }
+        return;
+    }
+    if rng.chance(1, 5) {
+        out.push("p".into());
+        out.push(crate::model::hex(rng.pick(PHR).as_bytes()));
+        return;
+    }
+    if depth > 0 && rng.chance(1, 8) {
+        out.push("n".into());
+        out.push(rng.below(3).to_string());
+        lean_opd_tokens(rng, depth - 1, out);
+        return;
+    }
+    if depth == 0 || rng.chance(3, 5) {
+        out.push("w".into());
+        out.push(crate::model::hex(rng.pick(VOC).as_bytes()));
+        return;
+    }
+    let n = rng.usize_below(4);
+    if rng.chance(1, 4) {
+        out.push("fg".into());
+        out.push(crate::model::hex(rng.pick(&["title", "body", "t", "stop"]).as_bytes()));
+    } else {
+        out.push("g".into());
+    }
+    out.push(rng.below(3).to_string());
+    out.push(rng.pick(&["-", "-", "m", "x", "s"]).to_string());
+    out.push(rng.below(3).to_string());
+    out.push(n.to_string());
+    lean_item_tokens(rng, depth - 1, out);
+    for _ in 0..n {
+        out.push(rng.pick(&["-", "a", "o"]).to_string());
+        out.push(rng.pick(&["-", "-", "m", "x", "s"]).to_string());
+        out.push(rng.below(3).to_string());
+        out.push(rng.below(3).to_string());
+        lean_item_tokens(rng, depth - 1, out);
+    }
+}
+
+/// nested operand lists printed by the Lean printer of `C16_print_parse_nested`
+fn check_lean_printed_nested(ctx: &mut Ctx, w: &World) {
+    let mut rng = ctx.rng.fork();
+    let n = rng.usize_below(4);
+    let mut toks: Vec<String> = vec![rng.below(3).to_string(), rng.pick(&["-", "-", "m", "x", "s"]).to_string(), rng.below(3).to_string(), n.to_string()];
+    lean_item_tokens(&mut rng, 3, &mut toks);
+    for _ in 0..n {
+        toks.push(rng.pick(&["-", "a", "o"]).to_string());
+        toks.push(rng.pick(&["-", "-", "m", "x", "s"]).to_string());
+        toks.push(rng.below(3).to_string());
+        toks.push(rng.below(3).to_string());
+        lean_item_tokens(&mut rng, 3, &mut toks);
+    }
+    let req = format!("C16 printt {}", toks.join(","));
+    let resp = ctx.model.ask(&req);
+    let text = match crate::model::unhex(&resp).and_then(|b| String::from_utf8(b).ok()) {
+        Some(t) => t,
+        None => {
+            ctx.report.violation("model", "C16:model-rejects-request", format!("model rejects {req}: {resp}"), json!({"kind": "printt", "req": req}));
+            return;
+        }
+    };
+    ctx.report.case(&format!("lean-printed-nested|{text}"), text.contains('('));
+    if parse_query(&text).is_err() {
+        ctx.report.violation("model", "C16:lean-printed-text-rejected", format!("the strict parser rejects the text printed by the Lean printer: {text:?}"), json!({"kind": "string", "text": text, "origin": "lean-printed"}));
+    }
+    check_string(ctx, w, &text, "lean-printed-nested");
+}
+
+/// the Lean printer of `C16_print_parse_operands`: operand lists of plain words printed by the
+/// model with random layout; the real parsers and the Lean parsers are compared on that text
+fn check_lean_printed(ctx: &mut Ctx, w: &World) {
+    let mut rng = ctx.rng.fork();
+    const VOC: &[&str] = &["a", "b", "abc", "x1", "ANDROID", "ORx", "NOTE", "INDIA", "IN2", "AN", "O", "NO", "42", "Zed", "andor"];
+    let occ = |rng: &mut Rng| *rng.pick(&["-", "-", "m", "x", "s"]);
+    let hexw = |s: &str| crate::model::hex(s.as_bytes());
+    let n = rng.usize_below(6);
+    let items: Vec<String> = (0..n)
+        .map(|_| format!("{},{},{},{},{}", rng.pick(&["-", "a", "o"]), occ(&mut rng), hexw(*rng.pick(VOC)), rng.below(3), rng.below(3)))
+        .collect();
+    let req = format!("C16 printl {} {} {} {} {}", rng.below(3), occ(&mut rng), hexw(*rng.pick(VOC)), rng.below(3), if items.is_empty() { "-".to_string() } else { items.join(";") });
+    let resp = ctx.model.ask(&req);
+    let text = match crate::model::unhex(&resp).and_then(|b| String::from_utf8(b).ok()) {
+        Some(t) => t,
+        None => {
+            ctx.report.violation("model", "C16:model-rejects-request", format!("model rejects {req}: {resp}"), json!({"kind": "printl", "req": req}));
+            return;
+        }
+    };
+    ctx.report.case(&format!("lean-printed|{text}"), n >= 1);
+    if parse_query(&text).is_err() {
+        ctx.report.violation("model", "C16:lean-printed-text-rejected", format!("the strict parser rejects the text printed by the Lean printer: {text:?}"), json!({"kind": "string", "text": text, "origin": "lean-printed"}));
+    }
+    check_string(ctx, w, &text, "lean-printed");
+}
+
+/// offsets `(n, Term(` of the phrase terms in the Debug text of a compiled query
+fn debug_offsets(dbg: &str) -> Vec<u64> {
+    let mut out = vec![];
+    let b = dbg.as_bytes();
+    let mut i = 0;
+    while i < b.len() {
+        if b[i] == b'(' {
+            let mut j = i + 1;
+            while j < b.len() && b[j].is_ascii_digit() {
+                j += 1;
+            }
+            if j > i + 1 && dbg[j..].starts_with(", Term(") {
+                out.push(dbg[i + 1..j].parse().unwrap_or(u64::MAX));
+            }
+        }
+        i += 1;
+    }
+    out
+}
+
+/// the compile step of a quoted literal: the offsets of the phrase terms of the real compiled
+/// query = the analyzer's token positions (oracle) = Lean `Phrase.compile (analyse …)` (model)
+fn check_phrase_offsets(ctx: &mut Ctx, w: &World) {
+    let mut rng = ctx.rng.fork();
+    let n = 2 + rng.usize_below(5);
+    let words: Vec<String> = (0..n).map(|_| if rng.chance(2, 5) { rng.pick(STOP_WORDS).to_string() } else { rng.pick(WORDS).to_string() }).collect();
+    let kept = kept_positions(F_STOP, &words);
+    if kept.len() < 2 {
+        return;
+    }
+    let suffix = match rng.below(4) {
+        0 => "~2",
+        1 if !STOP_WORDS.contains(&words[n - 1].as_str()) => "*",
+        _ => "",
+    };
+    let text = format!("stop:\"{}\"{suffix}", words.join(" "));
+    let case = json!({"kind": "string", "text": text, "origin": "phrase-offsets"});
+    ctx.report.case(&format!("phrase-offsets|{text}"), kept.len() < n);
+    ctx.report.count("phrase-offsets:cases");
+    let dbg = match catch_unwind(AssertUnwindSafe(|| w.parser_or.parse_query(&text).map(|q| format!("{q:?}")))) {
+        Ok(Ok(d)) => d,
+        Ok(Err(e)) => {
+            ctx.report.violation("oracle", "C16:wellformed-rejected", format!("{text:?} is rejected: {e}"), case);
+            return;
+        }
+        Err(e) => {
+            ctx.report.violation("oracle", panic_key(&panic_text(e)), format!("QueryParser::parse_query panics on {text:?}"), case);
+            return;
+        }
+    };
+    let real = debug_offsets(&dbg);
+    let expected: Vec<u64> = kept.iter().map(|(p, _)| *p as u64).collect();
+    let flags: Vec<u64> = words.iter().map(|x| if STOP_WORDS.contains(&x.as_str()) { 0 } else { 1 }).collect();
+    let model = ctx.model.ask(&format!("C16 phrase {}", crate::model::nat_list(&flags)));
+    if real != expected {
+        ctx.report.violation("oracle", "C16:phrase-offsets-not-token-positions", format!("{text:?}: the compiled phrase terms have offsets {real:?}, the analyzer's token positions are {expected:?}"), case.clone());
+    }
+    if model != crate::model::nat_list(&real) {
+        ctx.report.violation("model", "C16:phrase-offsets-model-mismatch", format!("{text:?}: real offsets {real:?} ≠ Lean Phrase.compile {model}"), case);
+    }
+}
+
 /// an unmarked `NOT x` clause of a marker list somewhere below a boost: `rewrite_ast` does not
 /// descend into `Boost`, so the clause is not normalised to `-x`
 fn neg_under_boost(q: &Q, boosted: bool) -> bool {
@@ -887,6 +1156,7 @@ pub fn run(ctx: &mut Ctx) {
         "lenient tree and early-operator error count = Lean lenientFold on inputs the strict parser rejects for a leading operator".into(),
         "doc-id set of QueryParser::parse_query = Lean model of rewrite + compute_logical_ast + simplify + BooleanQuery semantics".into(),
         "doc-id set of QueryParser::parse_query_lenient = Lean lenient pipeline".into(),
+        "offsets of the phrase terms of the compiled query = Lean Phrase.compile (analyse keep words)".into(),
         "Lean semQ = harness brute-force meaning of the abstract query".into(),
     ];
     if let Some(case) = ctx.replay.clone() {
@@ -980,6 +1250,21 @@ pub fn run(ctx: &mut Ctx) {
             let text = g.print(&mut ctx.rng.fork(), &q, true);
             ctx.report.count("sem:stop-word-phrase-corpus");
             check_sem_case(ctx, &w3, &g, &q, &text);
+        }
+    }
+
+    // texts printed by the Lean printer (the printer of C16_print_parse_operands)
+    if on("b") {
+        for _ in 0..ctx.budget(400, 20_000) {
+            check_lean_printed(ctx, &w);
+            check_lean_printed_nested(ctx, &w);
+        }
+    }
+
+    // compile step of quoted literals on the token-dropping field
+    if on("c") {
+        for _ in 0..ctx.budget(300, 5000) {
+            check_phrase_offsets(ctx, &w);
         }
     }
 
